@@ -141,11 +141,12 @@ def run(ctx, F):
                   expected="already_marked = %s (%s)" % (str(want).lower(), "objects drained from the marker's queue were marked when they were enqueued" if from_queue else "roots / SATB nodes have not been traced yet"),
                   found="objects=%s flag=%s" % (objs[:100], flag), where=where(f, c.line), key="C12.already-marked|%s|%s" % (f.q, "queue" if from_queue else "fresh"))
     dw = F.fn("<%s as scheduler::work::GCWork>::do_work" % CTO)
-    ext = [c for c in live_calls(dw, name="extend")]
-    okx = len(ext) == 1 and bool(guard_find(dw, ext[0].bb, r"\.already_marked$", True))
+    # insertions into the scan queue made by do_work itself (not by the tracing closures): extend / push_back / push_front / append
+    ext = [c for c in live_calls(dw) if c.name in ("extend", "push_back", "push_front", "append", "extend_from_slice")]
+    okx = len(ext) >= 1 and all(bool(guard_find(dw, c.bb, r"\.already_marked$", True)) for c in ext)
     tr_else = [c for g in fn_and_closures(F, dw) for c in live_calls(g, name="trace_object")]
-    ctx.judge(okx and len(tr_else) >= 2, "C12.already-marked", "objects are queued without tracing only when flagged already marked", expected="queue.extend(initial) under already_marked, trace_object otherwise",
-              found="extend=%d trace sites=%d" % (len(ext), len(tr_else)), where=where(dw), key="C12.already-marked|use")
+    ctx.judge(okx and len(tr_else) >= 2, "C12.already-marked", "objects are queued without tracing only when flagged already marked", expected="do_work itself inserts into the queue only under already_marked, trace_object otherwise",
+              found="direct insertions=%d trace sites=%d" % (len(ext), len(tr_else)), where=where(dw), key="C12.already-marked|use")
     for cl in closures_of(F, dw):
         pb = [c for c in live_calls(cl, name="push_back")]
         if pb:
